@@ -176,7 +176,7 @@ var c03Rich, _ = math.NewIntFromString("1180591620717411303424") // 2^70
 
 var c03Kinds = []string{"none", "flip-storage", "flip-blockhash", "flip-proof", "version", "seq", "amount", "amount+2^64", "bridge", "index", "swap-from-to",
 	"other-storage", "other-blockhash", "drop-last", "drop-first", "dup-item", "swap-items", "extend", "empty-proof", "cut-to-inner", "other-pos-proof",
-	"from-case", "from-nul", "move-byte", "denom", "to-other-user", "dead-output", "inner-as-root"}
+	"from-case", "from-nul", "move-byte", "denom", "to-other-user", "dead-output", "inner-as-root", "to-uppercase"}
 
 // perturb applies one perturbation kind in place; returns false if it does not apply.
 func (w *c03World) perturb(rt *rapid.T, kind string, m *ophosttypes.MsgFinalizeTokenWithdrawal, o *mOutput, pos int) bool {
@@ -292,6 +292,11 @@ func (w *c03World) perturb(rt *rapid.T, kind string, m *ophosttypes.MsgFinalizeT
 		} else {
 			m.Amount.Denom = "uinit"
 		}
+	case "to-uppercase":
+		if strings.ToUpper(m.To) == m.To {
+			return false
+		}
+		m.To = strings.ToUpper(m.To) // a valid spelling of the same account, but not the committed string
 	case "to-other-user":
 		for _, u := range w.users {
 			if u.Str != m.To {
